@@ -207,8 +207,10 @@ def insert_unsupported(rng, w, act, form):
     elif form == "constant-equality":
         if not w.constants:
             return False
-        k = rng.choice(list(w.constants))
-        act["pre"] = act["pre"] + [rng.choice([["=", params[0][0], k], ["not", ["=", params[0][0], k]], ["=", k, params[0][0]]])]
+        # prefer a (parameter, constant) pair for which the equality can actually hold in a type-correct call
+        pairs = [(v, k) for v, t in params for k, kt in w.constants.items() if w.subtype(kt, t)]
+        v, k = rng.choice(pairs) if pairs else (params[0][0], rng.choice(list(w.constants)))
+        act["pre"] = act["pre"] + [rng.choice([["=", v, k], ["not", ["=", v, k]], ["=", k, v], ["not", ["=", k, v]]])]
     elif form == "undeclared-function":
         act["pre"] = act["pre"] + [[">=", ["ghostf"], "0"]]
     elif form == "forall-in-when-condition":
